@@ -129,7 +129,8 @@ PROBES = [
     "apply_after_apply_fail_same_base", "apply_fail_after_joins_recorded",
     "cache_hit", "cache_miss", "cache_eviction", "same_shape_different_literals",
     "style_sa_select", "style_sa_legacy", "style_sa_core", "style_dj_qs",
-    "style_dj_manager", "style_dj_custom_manager", "style_dj_related_manager", "join_form_rel", "join_form_outer_rel", "join_form_target_on",
+    "style_sa_select_aliased", "join_form_joinedload", "join_form_core_join", "op_distinct",
+    "op_only", "style_dj_manager", "style_dj_custom_manager", "style_dj_related_manager", "join_form_rel", "join_form_outer_rel", "join_form_target_on",
     "join_form_target", "join_form_select_related", "host_func_used", "gc_between_ops",
     "chain_depth_ge_3",
 ]
@@ -249,7 +250,7 @@ def execute(plan, pristine, deep=False):
                 log.append(("skip", i, k))
                 continue
             style, root = base.style, base.root
-            if k in ("where", "join", "order", "annotate"):
+            if k in ("where", "join", "order", "annotate", "distinct", "only"):
                 obj = b.step(style, root, base.obj, op)
                 preds, order, joins, ann = list(base.preds), base.order, list(base.joins), base.annotated
                 if k == "where":
@@ -259,12 +260,14 @@ def execute(plan, pristine, deep=False):
                     probes["join_form_" + op["j"]["form"]] += 1
                 elif k == "order":
                     order = op["o"]
-                else:
+                elif k == "annotate":
                     ann = True
+                else:
+                    probes["op_" + k] += 1
                 nstyle = "dj_qs" if style in MANAGER_STYLES else style
                 nq = add(i, nstyle, root, obj, preds, order, joins, ann, base.chain + [op],
                          base.depth, base.qid)
-                if k == "join":
+                if k == "join" and op["j"]["form"] not in ("joinedload", "core_join"):
                     nq.have.add((op["j"]["owner"], op["j"]["rel"]))
                 check_intact(base, op, "after-host-op")
                 log.append((k, i, base.qid))
@@ -540,8 +543,9 @@ def gen_plan(seed, run, finding_shapes=True):
     gs = []
     n_ops = rng.randint(5, 14)
     # a history works on one or two backends
-    styles = rng.sample(["sa_select", "sa_legacy", "sa_core", "dj_qs", "dj_manager",
-                         "dj_custom_manager", "dj_related_manager"], rng.choice([1, 1, 2]))
+    styles = rng.sample(["sa_select", "sa_select_aliased", "sa_legacy", "sa_core", "dj_qs",
+                         "dj_manager", "dj_custom_manager", "dj_related_manager"],
+                        rng.choice([1, 1, 2]))
     ctr = [0]
 
     def nid():
@@ -580,11 +584,18 @@ def gen_plan(seed, run, finding_shapes=True):
             i = nid()
             ops.append({"i": i, "op": "where", "base": g.i, "cond": _gen_cond(rng, g.root)})
             gs.append(g.derive(i))
+        elif r < 0.30 and core and T.TO_ONE[g.root] and not g.joins:
+            rel = rng.choice(sorted(T.TO_ONE[g.root]))
+            i = nid()
+            j = {"owner": g.root, "rel": rel, "via": [], "form": "core_join"}
+            ops.append({"i": i, "op": "join", "base": g.i, "j": j})
+            gs.append(g.derive(i, joins=g.joins + [j]))
         elif r < 0.30 and not core and T.TO_ONE[g.root]:
             # join on a to-one relationship
-            if g.joins and rng.random() < 0.3 and not dj:
+            real = [j for j in g.joins if j["form"] in ("rel", "outer_rel", "target_on", "target")]
+            if real and rng.random() < 0.3 and not dj:
                 # second level: from an already joined target
-                j0 = rng.choice(g.joins)
+                j0 = rng.choice(real)
                 owner = T.TO_ONE[j0["owner"]][j0["rel"]][1]
                 via = j0["via"] + [j0["rel"]]
             else:
@@ -601,8 +612,17 @@ def gen_plan(seed, run, finding_shapes=True):
                 j = {"owner": owner, "rel": rel, "via": via, "form": "select_related",
                      "path": "__".join(path)}
             else:
-                forms = ["rel", "rel", "outer_rel", "target_on", "target"]
+                forms = ["rel", "rel", "outer_rel", "target_on", "target", "joinedload"]
                 form = rng.choice(forms)
+                if form == "joinedload":
+                    if via:
+                        form = "rel"
+                    else:
+                        i = nid()
+                        j = {"owner": owner, "rel": rel, "via": via, "form": form}
+                        ops.append({"i": i, "op": "join", "base": g.i, "j": j})
+                        gs.append(g.derive(i, joins=g.joins + [j]))
+                        continue
                 if form in ("target_on", "target") and T.TABLE[T.TO_ONE[owner][rel][1]] != rel \
                         and not finding_shapes:
                     form = "rel"
@@ -613,6 +633,18 @@ def gen_plan(seed, run, finding_shapes=True):
                 j = {"owner": owner, "rel": rel, "via": via, "form": form}
             ops.append({"i": i, "op": "join", "base": g.i, "j": j})
             gs.append(g.derive(i, joins=g.joins + [j], paths=g.paths | {path}))
+        elif r < 0.32 and not getattr(g, "distinct", False) and not g.annotated:
+            i = nid()
+            if dj and rng.random() < 0.5:
+                fld = sorted(f for f in T.SCALARS[g.root] if f != "id")[0]
+                ops.append({"i": i, "op": "only", "base": g.i,
+                            "mode": "defer", "field": fld})
+                gs.append(g.derive(i))
+            else:
+                ops.append({"i": i, "op": "distinct", "base": g.i})
+                ng = g.derive(i)
+                ng.distinct = True
+                gs.append(ng)
         elif r < 0.37 and not g.order:
             i = nid()
             f = rng.choice(sorted(T.SCALARS[g.root]))
@@ -723,7 +755,7 @@ def shrink_candidates(plan):
             yield p
     # 2. splice out a middle op (where/join/order/annotate/apply): children re-based
     for op in ops:
-        if op["op"] in ("where", "join", "order", "annotate", "apply"):
+        if op["op"] in ("where", "join", "order", "annotate", "apply", "distinct", "only"):
             p = copy.deepcopy(plan)
             p["ops"] = [o for o in p["ops"] if o["i"] != op["i"]]
             for o in p["ops"]:
@@ -768,7 +800,7 @@ def shrink_candidates(plan):
 def _m_double_join(entry, v, plan):
     """6.7: a base query that already joins the related entity *by target* along a
     relationship whose key differs from the related table's name is joined again."""
-    if v.get("style") not in ("sa_select", "sa_legacy"):
+    if v.get("style") not in ("sa_select", "sa_select_aliased", "sa_legacy"):
         return False
     if v["kind"] == "join-count":
         if v.get("got", 0) <= v.get("expected", 0):
